@@ -5,6 +5,21 @@ import json, subprocess
 HOOK_COMMITS = ["e830588", "a6f2056", "d667224"]
 
 CHECKS = {
+ "C02": dict(
+  technique="runtime differential monitor: find_best_match vs an exhaustive in-order scan using the library's own distance, on the bundled and on generated databases (loaded through the real parser)",
+  text="Exploration: the bundled database plus ~300 (quick) / 36k (thorough) generated p0f databases with wildcards, duplicates and equal-distance competitors; every signature is instantiated over all IP-version / payload-class / HTTP-version fillings (incl. HTTP/2 and HTTP/3), perturbed in one field, and mixed with random observations (~4.3e6 lookups quick). The returned label and signature must be pointer-identical to the first minimum of a full scan and the quality bit-identical; None exactly when nothing accepts. Held = no lookup differed.",
+  note="The library's calculate_distance/get_quality_score are the given (their semantics are C12's subject). Generators and text printer in siggen.rs.",
+  design="6 C02"),
+ "C11": dict(
+  technique="runtime resource monitor: counting global allocator (thread-local and process-wide counters) read after every packet of long single connections and of over-capacity connection sets",
+  text="Exploration: 9 traffic kinds that never yield a fingerprint (unterminated HTTP heads, endless bodies, TLS application data after either hello, huge declared record, random bytes, 1-byte segments, timestamped ACKs) x 2 segment sizes x HTTP/TLS/TCP/unified analyzers and one-worker pools, 2e4 (quick) / 1e6 (thorough) segments each, plus connection sets 1.2..4x the capacity; retained bytes must stay <= 1 MiB per connection (capacity x 1 MiB overall) and the bytes allocated for one packet <= 4 MiB + 8 x its length at every index. Held = limits never crossed; evidence lists the maximum retained KiB per case.",
+  note="Allocation volume is the work proxy; limits are fixed generous constants. Needs hooks H2/H3 for the worker path (allocation counter sampled at the dequeue/processed points).",
+  design="6 C11"),
+ "C12": dict(
+  technique="runtime oracle: field-wise reference model and metamorphic laws evaluated on calculate_distance / get_quality_score, exhaustive over small component domains, deviation models for two known findings",
+  text="Exploration: all TTL form pairs over 0..255 x 0..255, window form pairs on a boundary grid, wscale/olen/mss sweeps, software-string containment cases, controlled header-list edits with 0..14 errors, all small header-list pairs, seeded random signature/instance pairs (~8e7 judged items quick), and both quality tables over 0..2^20 + strided + top 2^16 (quick) or all 2^32 distances (thorough). Laws: instances get distance 0 / quality 1.0, decisive mismatches are rejected, one-field changes never lower and comparable forms add exactly the field's penalty, header error bands, tables non-increasing within [0.05,1.0] and 1.0 only at 0. Held = only the two listed known-finding deviations were observed.",
+  note="Reference semantics restated from the p0f README and the crate's documented penalties (c12.rs); ambiguous sub-domains are listed in the evidence assumptions and run unjudged.",
+  design="6 C12"),
  "C15": dict(
   technique="runtime differential monitor: filtered analyzers/pools vs unfiltered analyzers on the sub-trace admitted by the C14 reference applied to the analyzer's own view of each frame",
   text="Exploration: 24k (quick) / 600k (thorough) seeded traces mixing connections with odd frames (three framings incl. loopback family variants, IPv4 IHL 0..15, options, total-length lies, IPv6, non-TCP) x 3..6 filter configurations built from the trace's endpoints; filtered TCP/HTTP/TLS analyzers, filtered pools and the unified analyze_pcap must equal the unfiltered analyzer on the admitted sub-trace, and each frame's raw-filter verdict is compared with the reference on the analyzer's view (~2.6e6 judged items quick). Held = no difference.",
